@@ -5,10 +5,12 @@ package static
 
 import (
 	"os"
+
 	"path/filepath"
 	"strings"
 	"testing/fstest"
 	"time"
+	"verif/sim/internal/sched"
 )
 
 type fileSpec struct {
@@ -62,6 +64,7 @@ type fileState struct {
 	spec     fileSpec
 	id       int
 	versions [][]byte // every content the file ever had in this run
+	until    []int64  // global event stamp at which versions[i] stopped being the file's content (0: still is)
 	present  bool
 }
 
@@ -123,6 +126,7 @@ func (d *disk) reset() {
 	if !d.dirty {
 		for _, f := range d.files {
 			f.versions = f.versions[:1]
+			f.until = []int64{0}
 		}
 		return
 	}
@@ -136,6 +140,7 @@ func (d *disk) reset() {
 			os.MkdirAll(p, 0o755)
 			f.present = true
 			f.versions = [][]byte{nil}
+			f.until = []int64{0}
 			continue
 		}
 		os.MkdirAll(filepath.Dir(p), 0o755)
@@ -143,6 +148,7 @@ func (d *disk) reset() {
 		os.WriteFile(p, c, 0o644)
 		os.Chtimes(p, d.base, d.base.Add(time.Duration(i)*time.Second))
 		f.versions = [][]byte{c}
+		f.until = []int64{0}
 		f.present = true
 	}
 	os.Symlink("/dev/null", filepath.Join(d.pub, devEntry))
@@ -166,7 +172,9 @@ func (d *disk) replace(rel string, version int) {
 	p := filepath.Join(d.pub, filepath.FromSlash(rel))
 	os.Remove(p)
 	os.WriteFile(p, c, 0o644)
+	d.endVersions(rel)
 	f.versions = append(f.versions, c)
+	f.until = append(f.until, 0)
 	f.present = true
 	d.dirty = true
 }
@@ -174,6 +182,7 @@ func (d *disk) replace(rel string, version int) {
 //go:norace
 func (d *disk) remove(rel string) {
 	os.RemoveAll(filepath.Join(d.pub, filepath.FromSlash(rel)))
+	d.endVersions(rel)
 	d.dirty = true
 }
 
@@ -184,6 +193,7 @@ func (d *disk) swapToDir(rel string) {
 	p := filepath.Join(d.pub, filepath.FromSlash(rel))
 	os.RemoveAll(p)
 	os.MkdirAll(p, 0o755)
+	d.endVersions(rel)
 	d.dirty = true
 }
 
@@ -197,7 +207,9 @@ func (d *disk) swapToFile(rel string, version int) {
 	f := d.files[rel]
 	c := content(true, f.id, version, 40)
 	os.WriteFile(p, c, 0o644)
+	d.endVersions(rel)
 	f.versions = append(f.versions, c)
+	f.until = append(f.until, 0)
 	d.dirty = true
 }
 
@@ -209,28 +221,50 @@ func (d *disk) touch(rel string, k int) {
 	d.dirty = true
 }
 
+// endVersions marks every current version of rel, and of everything below it, as ended now.
+//
+//go:norace
+func (d *disk) endVersions(rel string) {
+	now := sched.Stamp()
+	for name, f := range d.files {
+		if name != rel && !strings.HasPrefix(name, rel+"/") {
+			continue
+		}
+		for i := range f.until {
+			if f.until[i] == 0 {
+				f.until[i] = now
+			}
+		}
+	}
+}
+
 // attribute reports whether body is a contiguous range of some version of a
 // regular file inside the served directory, and whether it carries a sentinel
 // of a file outside it.
-func (d *disk) attribute(body []byte) (insideRel string, outside bool) {
+func (d *disk) attribute(body []byte, since int64) (insideRel string, outside bool, stale bool) {
 	if strings.Contains(string(body), "<o") || strings.Contains(string(body), "SENT<o") {
-		return "", true
+		return "", true, false
 	}
 	if len(body) == 0 {
-		return "*", false
+		return "*", false, false
 	}
 	for _, rel := range d.order {
 		f := d.files[rel]
 		if f.spec.isDir && len(f.versions) <= 1 {
 			continue
 		}
-		for _, v := range f.versions {
+		for i, v := range f.versions {
 			if len(v) > 0 && strings.Contains(string(v), string(body)) {
-				return rel, false
+				if i < len(f.until) && f.until[i] != 0 && f.until[i] < since {
+					stale = true // that content had already been replaced or removed when the request began
+					insideRel = rel
+					continue
+				}
+				return rel, false, false
 			}
 		}
 	}
-	return "", false
+	return insideRel, false, stale
 }
 
 // containedIn reports whether body is a contiguous range of some version of
